@@ -1385,6 +1385,9 @@ class Model:
         of a distribution node is a :Class:`.VarValue` node, the value of its input is
         updated.
         """
+        # any iterable is accepted, also one that can be consumed only once
+        skip = tuple(skip)
+
         dists = [
             node
             for node in self._simulation_nodes
